@@ -215,52 +215,68 @@ def norm(s):
 
 
 def gen_c14(seed):
+    """One harness per table entry. Valve: behaviour 1 (info reply with symbolic app id, then
+    silence); the quick-tier games additionally get behaviour 0 (silent) and, in the thorough
+    tier, behaviour 2 (info + empty players + empty rules). Others: silent server; the
+    quick-tier games additionally get a junk datagram in the thorough tier."""
     games = parse_table()
     mods = parse_modules()
     quick = pick_quick(games, seed)
+    by_mod = {m["module"]: m for m in mods}
     by_name = {norm(m["name"]): m for m in mods}
     lines = ["// GENERATED by gen/generate.py from definitions.rs and games/{valve,gamespy,quake,unreal2}.rs — do not edit",
              "use super::*;", ""]
     unmatched = []
+    skipped = []
     n = 0
+    PROPCALL = {"ffow": "gamedig::games::ffow::query", "savage2": "gamedig::games::savage2::query",
+                "jc2m": "gamedig::games::jc2m::query", "theship": "gamedig::games::theship::query",
+                "mindustry": "mindustry_mod", "mc_bedrock": "minecraft::query_bedrock",
+                "mc_legacy16": "mc_legacy16_mod", "mc_legacy14": "mc_legacy14_mod", "mc_legacyb18": "mc_legacyb18_mod"}
     for g in games:
         fam = family_of(g["protocol"])
-        m = by_name.get(norm(g["name"]))
-        tier = "" if g["id"] in quick else "t_"
+        gid = g["id"]
+        m = by_mod.get(gid) or by_name.get(norm(g["name"]))
+        q = gid in quick
+        tier = "" if q else "t_"
         if fam == "valve":
-            engine = re.search(r"Protocol::Valve\((.*)\)\s*$", g["protocol"], re.S).group(1)
-            settings = g["settings"][:-len(".into_extra()")] if g["settings"] else "GatheringSettings::default()"
             if m is None or m["family"] != "valve":
-                unmatched.append(g["id"])
-                lines.append("c14_valve_nomod!(c14_%svalve_%s, \"%s\", %s, %s, %s);" % (
-                    tier, g["id"], g["id"], engine, port_expr(g["port"]), settings))
+                unmatched.append(gid)
+                lines.append('c14_valve_nomod!(c14_%svalve_%s_info, "%s", 1);' % (tier, gid, gid))
+                if q:
+                    lines.append('c14_valve_nomod!(c14_t_valve_%s_full, "%s", 2);' % (gid, gid))
             else:
-                lines.append("c14_valve!(c14_%svalve_%s, \"%s\", %s, %s, %s, %s);" % (
-                    tier, g["id"], g["id"], m["module"], engine, port_expr(g["port"]), settings))
+                lines.append('c14_valve!(c14_%svalve_%s_info, "%s", %s, 1);' % (tier, gid, gid, m["module"]))
+                if q:
+                    lines.append('c14_valve!(c14_valve_%s_silent, "%s", %s, 0);' % (gid, gid, m["module"]))
+                    lines.append('c14_valve!(c14_t_valve_%s_full, "%s", %s, 2);' % (gid, gid, m["module"]))
             n += 1
         elif fam in ("gs1", "gs2", "gs3", "quake1", "quake2", "quake3", "unreal2"):
             protofn = {"gs1": "gs1", "gs2": "gs2", "gs3": "gs3", "quake1": "quake1", "quake2": "quake2",
                        "quake3": "quake3", "unreal2": "unreal2_q"}[fam]
             if m is None:
-                unmatched.append(g["id"])
+                unmatched.append(gid)
                 continue
-            lines.append("c14_simple!(c14_%s%s_%s, \"%s\", %s, %s, %s, %s);" % (
-                tier, fam, g["id"], g["id"], m["module"], protofn, port_expr(g["port"]), FIRST[fam]))
+            lines.append('c14_simple!(c14_%s%s_%s_silent, "%s", %s, %s, %s, 0);' % (
+                tier, fam, gid, gid, m["module"], protofn, FIRST[fam]))
+            if q:
+                lines.append('c14_simple!(c14_t_%s_%s_junk, "%s", %s, %s, %s, 1);' % (
+                    fam, gid, gid, m["module"], protofn, FIRST[fam]))
             n += 1
-        elif fam in ("ffow", "savage2", "jc2m", "mindustry", "theship"):
-            lines.append("c14_prop!(c14_%s%s, \"%s\", %s, %s, %s);" % (
-                tier, g["id"], g["id"], fam, port_expr(g["port"]), FIRST[fam]))
+        elif fam in PROPCALL:
+            lines.append('c14_prop!(c14_%sprop_%s_silent, "%s", %s, %s, 0);' % (tier, gid, gid, PROPCALL[fam], FIRST[fam]))
+            if q:
+                lines.append('c14_prop!(c14_t_prop_%s_junk, "%s", %s, %s, 1);' % (gid, gid, PROPCALL[fam], FIRST[fam]))
             n += 1
-        elif fam in ("mc_bedrock", "mc_legacy16", "mc_legacy14", "mc_legacyb18"):
-            lines.append("c14_mc!(c14_%s%s, \"%s\", %s, %s, %s);" % (
-                tier, g["id"], g["id"], fam, port_expr(g["port"]), FIRST[fam]))
-            n += 1
-    # modules without a table entry are reported, not violations
+        else:
+            skipped.append((gid, fam))
     table_names = {norm(g["name"]) for g in games}
-    orphans = [m["module"] for m in mods if norm(m["name"]) not in table_names]
+    table_ids = {g["id"] for g in games}
+    orphans = [m["module"] for m in mods if norm(m["name"]) not in table_names and m["module"] not in table_ids]
     os.makedirs(OUT, exist_ok=True)
     open(os.path.join(OUT, "c14_games.rs"), "w").write("\n".join(lines) + "\n")
-    return "c14: %d games; table entries without module: %s; modules without table entry: %s" % (n, unmatched, orphans)
+    return "c14: %d games (%d quick); table entries without module: %s; modules without table entry: %s; not encodable: %s" % (
+        n, len(quick), unmatched, orphans, skipped)
 
 
 def main():
